@@ -113,9 +113,43 @@ func pair(c *ca, name string, o opt) {
 	leaf(c, name+"_enc", o)
 }
 
+// forged adds, to an existing PKI directory, a CA that copies ca1's subject name and subject key identifier under a
+// key of its own ("ca1_forged") and a server encryption certificate issued by it: by issuer name and authority key
+// identifier that certificate looks like one of ca1's, but ca1 never signed it.
+func forged() {
+	blk, _ := pem.Decode(mustRead(filepath.Join(dir, "ca1.crt")))
+	real, err := x509.ParseCertificate(blk.Bytes)
+	must(err)
+	k, err := sm2.GenerateKey(rand.Reader)
+	must(err)
+	t := &x509.Certificate{SerialNumber: big.NewInt(9001), RawSubject: real.RawSubject, SubjectKeyId: real.SubjectKeyId,
+		NotBefore: date(2020), NotAfter: date(2045), KeyUsage: x509.KeyUsageCertSign | x509.KeyUsageCRLSign, BasicConstraintsValid: true, IsCA: true}
+	der, err := x509.CreateCertificate(rand.Reader, t, t, &k.PublicKey, k)
+	must(err)
+	c, err := x509.ParseCertificate(der)
+	must(err)
+	writePEM("ca1_forged.crt", "CERTIFICATE", der)
+	kd, err := x509.MarshalPKCS8PrivateKey(k)
+	must(err)
+	writePEM("ca1_forged.key", "PRIVATE KEY", kd)
+	serial = 9100
+	leaf(&ca{c, k}, "server_forgedca_enc", opt{dns: []string{"server.test"}, enc: true})
+}
+
+func mustRead(name string) []byte {
+	b, err := os.ReadFile(name)
+	must(err)
+	return b
+}
+
 func main() {
 	dir = os.Args[1]
 	must(os.MkdirAll(dir, 0755))
+	if len(os.Args) > 2 && os.Args[2] == "forged" {
+		forged()
+		fmt.Println("ok (forged CA and its encryption certificate only)")
+		return
+	}
 	ca1 := mkCA("ca1")
 	ca2 := mkCA("ca2")
 	srv := []string{"server.test"}
